@@ -18,6 +18,13 @@ NESTS = {
     "defer": (["defer func() {"], ["}()"]),
     "go": (["go func() {"], ["}()"]),
     "label": (["L%(n)d:", "for {"], ["break L%(n)d", "}"]),
+    "funcassign": (["f%(n)d := func() {"], ["}", "f%(n)d()"]),
+    "funcvar": (["var f%(n)d = func() {"], ["}", "f%(n)d()"]),
+    "funcarg": (["run(func() {"], ["})"]),
+    "funcfield": (["_ = struct{ F func() }{F: func() {"], ["}}"]),
+    "block": (["{"], ["}"]),
+    "ifinit": (["if c%(n)d := cond; c%(n)d {"], ["}"]),
+    "typeswitch": (["switch any(cond).(type) {", "case bool:"], ["}"]),
 }
 
 
@@ -72,7 +79,12 @@ def d_package(ann, extra_decls=()):
     ls += ["\tM int", "}", ""]
     if ann.get("imm"):
         ls.append("// @immutable")
-    ls += ["type C int", "", "// U is never annotated.", "type U struct {", "\tX  int", "\tXs []int", "\tM  int", "}", ""]
+    ls += ["type C int", "", "// T2 is a second annotated type with its own constructor."]
+    if ann.get("imm"):
+        ls.append("// @immutable")
+    if ann.get("ctors"):
+        ls.append("// @constructor NewT2")
+    ls += ["type T2 struct{ X int }", "", "// U is never annotated.", "type U struct {", "\tX  int", "\tXs []int", "\tM  int", "}", ""]
     ls += list(extra_decls)
     return "\n".join(ls) + "\n"
 
@@ -106,10 +118,13 @@ IMM_STMT = {
     "indexMp": "%(x)s.Mp[\"k\"] = %(n)d",
     "readX": "_ = %(x)s.X + %(n)d",
     "onU": "u%(n)d.X = %(n)d",
+    "onT2": "q%(n)d.X = %(n)d",
     "local": "l%(n)d = %(n)d",
-    "recvAssign": "*r%(n)d = T{X: %(n)d}",
-    "recvInc": "*r%(n)d++",
-    "recvDec": "*r%(n)d--",
+    "recvAssign": "*r = T{X: %(n)d}",
+    "recvInc": "*r++",
+    "recvDec": "*r--",
+    "starPlain": "*r = %(n)d",
+    "starPlainInc": "*r++",
 }
 
 
@@ -120,22 +135,30 @@ def build_imm(sc, sid):
 
 def imm_container(c, n, pkg, qual, handles):
     """Returns (header lines, pre lines, statement text, post lines, footer lines) of one container."""
-    x = ("r%d" if c["via"] == "r" else "p%d") % n
+    x = "r" if c["via"] == "r" else "p%d" % n     # every receiver is called r
     stmt = IMM_STMT[c["stmt"]] % {"x": x, "n": n}
     te = type_expr(c["sp"], c["ptr"], qual)
     pre, post = [], []
     params = "p%d %s" % (n, te)
     if c["stmt"] == "onU":
         params = "u%d *%sU" % (n, qual)
+    if c["stmt"] == "onT2":
+        params = "q%d *%sT2" % (n, qual)
     if c["stmt"] in ("recvInc", "recvDec", "recvAssign") or c["via"] == "r":
         params = ""
     if c["stmt"] == "local":
         pre, post = ["var l%d int" % n], ["_ = l%d" % n]
+    if c["stmt"] in ("starPlain", "starPlainInc"):
+        params = "r *int"
     k = c["kind"]
     if k in ("init", "pkgvar"):
         # no parameters: the handle is a package-level variable declared in the handles file
         if c["stmt"] == "onU":
             handles.append("var u%d *%sU" % (n, qual))
+        elif c["stmt"] == "onT2":
+            handles.append("var q%d *%sT2" % (n, qual))
+        elif c["stmt"] in ("starPlain", "starPlainInc"):
+            pre = ["var r *int"] + pre
         elif c["stmt"] != "local":
             handles.append("var p%d %s" % (n, te))
         params = ""
@@ -143,9 +166,9 @@ def imm_container(c, n, pkg, qual, handles):
         "ctor1": "func NewT(%s) {" % params,
         "ctor2": "func MakeT(%s) {" % params,
         "other": "func fn%d(%s) {" % (n, params),
-        "pmeth": "func (r%d *T) m%d(%s) {" % (n, n, params),
-        "vmeth": "func (r%d T) m%d(%s) {" % (n, n, params),
-        "cmeth": "func (r%d *C) m%d() {" % (n, n),
+        "pmeth": "func (r *T) m%d(%s) {" % (n, params),
+        "vmeth": "func (r T) m%d(%s) {" % (n, params),
+        "cmeth": "func (r *C) m%d() {" % n,
         "ometh": "func (o%d *O) m%d(%s) {" % (n, n, params),
         "init": "func init() {",
         "pkgvar": "var _ = func() int {",
@@ -195,7 +218,7 @@ def build_generic(sc, sid, container_fn, d_extra=()):
         files.append(out)
     # handles file: package-level variables, helper types, aliases
     h = Out("%s/zz_handles.go" % pkg, pkg)
-    h.add("var cond bool", "var ch chan int", "", "// O is an un-annotated local type.", "type O struct{ X int }", "")
+    h.add("var cond bool", "var ch chan int", "", "func run(f func()) { f() }", "", "// O is an un-annotated local type.", "type O struct{ X int }", "")
     if uses_alias:
         h.add("type TA = %sT" % qual, "")
     if uses_ptralias:
@@ -239,6 +262,9 @@ CTOR_STMT = {
     "varPtr": ("var v%(n)d *%(t)s", "var g%(n)d *%(t)s"),
     "varBlank": ("var _ %(t)s", None),
     "onU": ("_ = %(q)sU{X: %(n)d}", None),
+    "lit2": ("_ = %(q)sT2{X: %(n)d}", "var g%(n)d = %(q)sT2{X: %(n)d}"),
+    "new2": ("v%(n)d := new(%(q)sT2)", "var g%(n)d = new(%(q)sT2)"),
+    "varZero2": ("var v%(n)d %(q)sT2", "var g%(n)d %(q)sT2"),
 }
 
 
@@ -257,7 +283,7 @@ def ctor_container(c, n, pkg, qual, handles):
     tmpl = CTOR_STMT[c["stmt"]][1 if k == "pkgdecl" else 0]
     stmt = tmpl % {"t": t, "n": n, "q": qual}
     post = []
-    if k != "pkgdecl" and c["stmt"] in ("new", "varZero", "varPtr"):
+    if k != "pkgdecl" and c["stmt"] in ("new", "varZero", "varPtr", "new2", "varZero2"):
         post = ["_ = v%d" % n]
     if k == "pkgdecl":
         return [], [], stmt, [], []
@@ -265,7 +291,7 @@ def ctor_container(c, n, pkg, qual, handles):
         "ctor1": "func NewT() {",
         "ctor2": "func MakeT() {",
         "other": "func fn%d() {" % n,
-        "pmeth": "func (r%d *T) m%d() {" % (n, n),
+        "pmeth": "func (r *T) m%d() {" % n,
         "ometh": "func (o%d *O) m%d() {" % (n, n),
         "init": "func init() {",
         "pkgvar": "var _ = func() int {",
